@@ -116,6 +116,19 @@ def body_for(kind, op, k):
         d = {'error': 'ForbiddenOperationException',
              'errorMessage': 'Invalid credentials %d.' % k}
         return json.dumps(d).encode(), 'application/json', d
+    if kind in ('full_latin1', 'full_utf8_raw', 'full_utf8_charset'):
+        # non-ASCII text sent raw (not \\u-escaped), in the character set the
+        # Content-Type declares (JSON's default UTF-8 when it declares none)
+        d = {'error': 'ForbiddenOperationException',
+             'errorMessage': 'Ung\u00fcltige Anmeldedaten \u00e9\u00df %d.' % k,
+             'cause': '\u00dcberlastet'}
+        enc, ct = {'full_latin1': ('latin-1',
+                                   'application/json; charset=ISO-8859-1'),
+                   'full_utf8_raw': ('utf-8', 'application/json'),
+                   'full_utf8_charset': ('utf-8',
+                                         'application/json; charset=UTF-8')
+                   }[kind]
+        return json.dumps(d, ensure_ascii=False).encode(enc), ct, d
     if kind == 'full_cause':
         d = {'error': 'IllegalArgumentException',
              'errorMessage': 'msg é %d' % k, 'cause': 'UserMigrated'}
@@ -517,7 +530,8 @@ def op_strategy():
     err_body = st.sampled_from(['full', 'full_cause', 'partial_error',
                                 'partial_msg', 'null', 'number', 'string',
                                 'array', 'text', 'empty', 'true',
-                                'null_message', 'null_error'])
+                                'null_message', 'null_error', 'full_latin1',
+                                'full_utf8_raw', 'full_utf8_charset'])
     err = st.tuples(st.sampled_from(ERR_STATUS), err_body)
     user = st.sampled_from(['alice@example.org', 'bob', 'é'])
     pw = st.sampled_from(['hunter2', ''])
@@ -543,7 +557,9 @@ def t_subsets(ctx, lo, hi):
     subsets = list(itertools.product([False, True], repeat=5))[lo:hi]
     replies = [(200, 'valid'), (204, 'empty'), (403, 'full'),
                (500, 'null'), (400, 'text'), (429, 'partial_error'),
-               (403, 'null_message'), (503, 'null_error')]
+               (403, 'null_message'), (503, 'null_error'),
+               (403, 'full_latin1'), (401, 'full_utf8_raw'),
+               (403, 'full_utf8_charset')]
     for init in subsets:
         for rep in replies:
             for op in (('authenticate', 'u', 'p', False),
@@ -561,7 +577,7 @@ def t_subsets(ctx, lo, hi):
                                    'ops': [op + rep]})
     ctx.sample({'initial': [True, True, False, True, False],
                 'ops': [('refresh', 403, 'full')]}, 'subsets')
-    ctx.exhaustive_done('all 32 initial field subsets x 7 operations x 8 '
+    ctx.exhaustive_done('all 32 initial field subsets x 7 operations x 11 '
                         'reply classes (single step)')
 
 
